@@ -1,5 +1,37 @@
-import Secp.Hand.History
-/-! # C13 — placeholder: theorems are being added in this session -/
+import Secp.Proofs.ScalarCmp
+/-!
+# C13 — scalar comparisons and conditional selection follow integer semantics
+
+Model of the code: `Hand.Scalar.{equal,isZero,isOne,lessOrEqual,cselect}` built from the generated
+`FiatScalar.{equal,isFEZero,isNonZero,isZero,selectznz,fromMontgomery}`. On the pinned tree `LessOrEqual`
+compared Montgomery limbs (F3, commit 0724df4) and `CSelect` passed the raw condition word to the 0/1 conditional
+move (F4, commit 8a12db2); the models here follow the repaired code and the correspondence family `SC.*` ties them to it.
+-/
 namespace C13
-theorem model_is_total : True := trivial
+
+/-- **LessOrEqual** returns 1 exactly when the canonical value of `s` is ≤ that of `t`, else 0 -/
+theorem lessOrEqual_iff (s t : L4) (hs : sOk s) (ht : sOk t) :
+    Hand.Scalar.lessOrEqual s t = if (sVal s).val ≤ (sVal t).val then 1 else 0 := _root_.lessOrEqual_iff s t hs ht
+
+/-- **Equal** agrees with equality of canonical values; a nil argument compares unequal -/
+theorem equal_iff (s t : L4) (hs : sOk s) (ht : sOk t) :
+    Hand.Scalar.equal s (some t) = if sVal s = sVal t then 1 else 0 := sc_equal_iff s t hs ht
+theorem equal_nil (s : L4) : Hand.Scalar.equal s none = 0 := rfl
+
+theorem isZero_iff (s : L4) (hs : sOk s) : Hand.Scalar.isZero s = true ↔ sVal s = 0 := sc_isZero_iff s hs
+theorem isOne_iff (s : L4) (hs : sOk s) : Hand.Scalar.isOne s = true ↔ sVal s = 1 := sc_isOne_iff s hs
+
+/-- **CSelect**: the first operand for condition 0, the second for *every* non-zero 64-bit condition word -/
+theorem cselect_spec (r : L4) (c : Nat) (hc : c < W) (u v : L4) (hu : u.ok) (hv : v.ok) :
+    Hand.Scalar.cselect r c (some u) (some v) = (none, if c = 0 then u else v) := _root_.cselect_spec r c hc u v hu hv
+
+/-- a nil operand is reported and nothing changes -/
+theorem cselect_nil (r : L4) (c : Nat) (u v : Option L4) (h : u = none ∨ v = none) :
+    Hand.Scalar.cselect r c u v = (some .nilScalar, r) := by
+  rcases h with rfl | rfl
+  · exact cselect_nil_left r c v
+  · exact cselect_nil_right r c u
+
+example : sOk Hand.Scalar.minusOne ∧ sOk FiatScalar.setOne := ⟨⟨by decide, by decide⟩, ⟨by decide, by decide⟩⟩
+
 end C13
